@@ -29,6 +29,9 @@ Clauses(i) ==
            theoryTT   |-> In(e.y, 1, 5000) => e.mtt <= SunTheoryTT ]
     [] e.k = "sq" ->
          [ dayOfInstant |-> In(e.y, MoonDayFrom, MoonDayTo) => e.f = e.pj,
+           (* every lunation starts a month: this month's conjunction is the one after the previous month's (lunation
+              numbers km / pkm measured from the two first days) *)
+           consecutive |-> (In(e.y, MoonDayFrom + 1, MoonDayTo) /\ e.pkm > -900000) => e.km = e.pkm + 1,
            guardBand  |-> In(e.y, MoonDayFrom, 6500) => e.fe < MoonGuard,
            residual   |-> e.rs < SubArcsecond,
            theoryCivil |-> In(e.y, 1900, 2150) => e.mut <= MoonTheoryCivil,
